@@ -125,12 +125,14 @@ def make_job(only=None, seed=0):
                 probe_args=dict(package=names.import_package(P), proto_package=P, cells=cells, seed=seed)), cells
 
 
-def subpackage_job(seed=0, only=None):
+def subpackage_job(seed=0, only=None, same_package=False):
     """The request message lives in a proto sub-package of the API (a proto-plus type of another package), the service in the
     API package; all messages sit in the sub-package."""
-    sp = P + '.sub'
+    # same_package (wave 7): the messages sit in *another file of the API's own package* (messages.proto + service.proto)
+    sp = P if same_package else P + '.sub'
+    tag, svc = ('otherfile', 'FlatOther') if same_package else ('sub', 'FlatSub')
     dmss, dmss_e = map_field(f'.{sp}.FlatRequest', 'attrs', 4, 'string', 'string')
-    sub = file('acme/flat/v1/sub/things.proto', sp, messages=[
+    sub = file('acme/flat/v1/things.proto' if same_package else 'acme/flat/v1/sub/things.proto', sp, messages=[
         message('Money', [field('units', 1, 'int64'), field('currency', 2, 'string')]),
         message('FlatRequest', [field('name', 1, 'string'), field('count', 2, 'int64'), field('tags', 3, 'string', repeated=True), dmss,
                                 field('money', 5, f'.{sp}.Money'), field('flag', 6, 'bool')], nested=[dmss_e]),
@@ -142,10 +144,10 @@ def subpackage_job(seed=0, only=None):
         j += 1
         rpc = f'Sub{j}'
         meths.append(method(rpc, f'.{sp}.FlatRequest', f'.{sp}.Resp', sigs=[','.join(DEP_KINDS[k] for k in sig)]))
-        cells.append(dict(id='sub/' + ('single/' if len(sig) == 1 else 'pair/') + ','.join(sig), service='FlatSub', rpc=rpc, py=names.py_method(rpc),
+        cells.append(dict(id=tag + '/' + ('single/' if len(sig) == 1 else 'pair/') + ','.join(sig), service=svc, rpc=rpc, py=names.py_method(rpc),
                           req=f'.{sp}.FlatRequest', dep='sub', kinds=sig, params=[param_name(DEP_KINDS[k]) for k in sig],
                           paths=[DEP_KINDS[k] for k in sig], resp=f'.{sp}.Resp'))
-    main = file('acme/flat/v1/flatsub.proto', P, services=[service('FlatSub', meths)])
+    main = file('acme/flat/v1/flat_service.proto' if same_package else 'acme/flat/v1/flatsub.proto', P, services=[service(svc, meths)])
     std = desc.std_dep_names()
     sub.dependency.extend(std)
     main.dependency.extend(std + [sub.name])
@@ -153,8 +155,8 @@ def subpackage_job(seed=0, only=None):
     desc.gate(req)
     if only:
         cells = [c for c in cells if c['id'] in only]
-    return dict(id='c05-subpackage', req=req.SerializeToString(), probe='mc.probes.flatten',
-                probe_args=dict(package=names.import_package(P), proto_package=P, cells=cells, seed=seed, sub_package=names.import_package(P) + '.sub')), cells
+    return dict(id='c05-otherfile' if same_package else 'c05-subpackage', req=req.SerializeToString(), probe='mc.probes.flatten',
+                probe_args=dict(package=names.import_package(P), proto_package=P, cells=cells, seed=seed, sub_package=names.import_package(P) + ('' if same_package else '.sub'))), cells
 
 
 def control_word_jobs():
@@ -194,7 +196,9 @@ def run(ctx, only=None):
     job, cells = make_job(only, ctx.seed)
     sjob, scells = subpackage_job(ctx.seed, only)
     ctx.log(f'{len(cells)} signature cells + {len(scells)} with the request in a proto sub-package')
-    pairs = [(j, c) for j, c in ((job, cells), (sjob, scells)) if c or not only]
+    ojob, ocells = subpackage_job(ctx.seed, only, same_package=True)
+    ctx.log(f'{len(ocells)} with the request in another file of the same package')
+    pairs = [(j, c) for j, c in ((job, cells), (sjob, scells), (ojob, ocells)) if c or not only]
     for (job, cells), res in zip(pairs, engine.run_jobs([j for j, _ in pairs])):
         consume(ctx, job, cells, res, only, floor=job['id'] == 'c05')
     ctx.extra['bound'] = 'all 3^n assignments for n<=5 parameters; singles + all ordered pairs of 18 kinds; dependency-package and sub-package requests'
